@@ -130,6 +130,17 @@ pub fn relations(ctx: &mut Ctx, index: u64, c: &Curve, w: &str, r: Option<&mut R
             if moved > arc + 1e-3 + 1e-6 * scale {
                 fail!("moves_farther_than_arc", "positions at progress {a:?} and {b:?} are {moved:?} apart but the arc between them is only {arc:?}");
             }
+            // the two steps position_at is documented to consist of, called directly
+            let d = c.progress_to_dist(a);
+            let i = c.idx_of_dist(d);
+            ctx.count("c19_index_probes");
+            if i > lens.len() || (i < lens.len() && lens[i] < d - 1e-4) || (i > 0 && i <= lens.len() && lens[i - 1] > d + 1e-4) {
+                fail!("idx_of_dist", "idx_of_dist({d:?}) = {i} but the cumulative lengths around it are {:?}", &lens[i.saturating_sub(2).min(lens.len())..(i + 2).min(lens.len())]);
+            }
+            let q = c.interpolate_vertices(i, d);
+            if !close(q, pa, scale) {
+                fail!("interpolate_vertices", "interpolate_vertices({i}, {d:?}) = {q:?} but position_at({a:?}) = {pa:?}");
+            }
             if let Some((x, y)) = reference_position(path, lens, a.clamp(0.0, 1.0) * dist) {
                 let tol = 1e-3 + 1e-5 * scale;
                 if (f64::from(pa.x) - x).abs() > tol || (f64::from(pa.y) - y).abs() > tol {
@@ -191,9 +202,26 @@ pub fn run(ctx: &mut Ctx) {
             relations(ctx, i, &c, &w, Some(&mut r), true);
             // the borrowed view answers identically
             let b = c.as_borrowed_curve();
-            for p in [0.0, 0.3, 0.77, 1.0] {
-                if format!("{:?}", b.position_at(p)) != format!("{:?}", c.position_at(p)) {
-                    ctx.violation("borrowed_differs", format!("BorrowedCurve::position_at({p}) differs from Curve::position_at"), i, w.as_bytes());
+            for p in [0.0, 0.3, 0.77, 1.0, -0.5, 1.5, r.f(), r.f()] {
+                let (db, dc) = (b.progress_to_dist(p), c.progress_to_dist(p));
+                let (ib, ic) = (b.idx_of_dist(db), c.idx_of_dist(dc));
+                if format!("{:?}", b.position_at(p)) != format!("{:?}", c.position_at(p))
+                    || db.to_bits() != dc.to_bits()
+                    || ib != ic
+                    || format!("{:?}", b.interpolate_vertices(ib, db)) != format!("{:?}", c.interpolate_vertices(ic, dc))
+                {
+                    ctx.violation("borrowed_differs", format!("BorrowedCurve answers differ from Curve's at progress {p}: position {:?} vs {:?}, distance {db:?} vs {dc:?}, index {ib} vs {ic}", b.position_at(p), c.position_at(p)), i, w.as_bytes());
+                    break;
+                }
+            }
+            // a borrowed curve computed on its own (not a view of the owned one) answers identically as well
+            {
+                let fresh = rosu_map::section::hit_objects::BorrowedCurve::new(mode, &pts, l, &mut bufs);
+                for p in [0.0, 0.41, 1.0, r.f()] {
+                    if format!("{:?}", fresh.position_at(p)) != format!("{:?}", c.position_at(p)) || fresh.progress_to_dist(p).to_bits() != c.progress_to_dist(p).to_bits() {
+                        ctx.violation("borrowed_differs", format!("BorrowedCurve::new answers differ from Curve::new at progress {p}: {:?} vs {:?}", fresh.position_at(p), c.position_at(p)), i, w.as_bytes());
+                        break;
+                    }
                 }
             }
         });
